@@ -60,6 +60,10 @@ pub struct DeliveredRec {
     pub frame: Option<RFrame>,
     pub len: usize,
     pub injected: bool,
+    /// when the destination endpoint took it out of its socket (observed: the socket's queue is
+    /// first-in first-out and its length is read after every step); None = still queued, or the
+    /// socket was closed first
+    pub read_ns: Option<u64>,
 }
 
 struct Pending {
@@ -176,6 +180,11 @@ pub struct SendFaultPlan {
     pub every: u64,
     pub only_server: Option<bool>,
     pub bursts: Vec<(Option<bool>, u64, u64)>,
+    /// receive side: every `recv_every`-th receive call of the chosen side(s) fails (0 = none) and
+    /// during each burst every receive call of that side fails. A failing call consumes nothing:
+    /// the endpoint's receive loop of that step ends and the queue waits for the next step.
+    pub recv_every: u64,
+    pub recv_bursts: Vec<(Option<bool>, u64, u64)>,
 }
 
 impl SendFaultPlan {
@@ -189,7 +198,21 @@ impl SendFaultPlan {
             let len = *rng.pick(&[1u64, 5, 20, 100, 500, 2100, 5000]) * MS;
             bursts.push((*rng.pick(&[None, Some(true), Some(false)]), t0, (t0 + len).min(horizon_ns)));
         }
-        Self { until_ns: horizon_ns, every, only_server, bursts }
+        Self { until_ns: horizon_ns, every, only_server, bursts, recv_every: 0, recv_bursts: Vec::new() }
+    }
+
+    /// Receive errors only (ECONNREFUSED on a connected socket after an ICMP error, EINTR, ...).
+    pub fn random_recv(rng: &mut Rng, horizon_ns: u64) -> Self {
+        let recv_every = *rng.pick(&[0u64, 0, 5, 17, 50]);
+        let only_server = *rng.pick(&[None, None, Some(true), Some(false)]);
+        let mut recv_bursts = Vec::new();
+        let n = if recv_every == 0 { rng.range(1, 5) } else { rng.range(0, 3) };
+        for _ in 0..n {
+            let t0 = rng.range(0, horizon_ns.max(2));
+            let len = *rng.pick(&[1u64, 5, 20, 100, 500, 1500]) * MS;
+            recv_bursts.push((*rng.pick(&[None, Some(true), Some(false)]), t0, (t0 + len).min(horizon_ns)));
+        }
+        Self { until_ns: horizon_ns, every: 0, only_server, bursts: Vec::new(), recv_every, recv_bursts }
     }
 }
 
@@ -198,7 +221,9 @@ pub struct World {
     /// added to the clock uflow sees after the server was bound ("the server has been up this long")
     pub epoch_ns: u64,
     pub send_faults: Option<SendFaultPlan>,
-    send_fault_armed: u64,
+    send_fault_armed: (u64, u64),
+    /// per socket: indices into `delivered` of the datagrams still in its receive queue
+    inbox_fifo: HashMap<SocketAddr, std::collections::VecDeque<usize>>,
     pub seq: u64,
     pub rng: Rng,
     pub net: NetCfg,
@@ -300,7 +325,8 @@ impl World {
             now_ns: 0,
             epoch_ns: pick_epoch_ns(mix(seed, 0xe90c)),
             send_faults: None,
-            send_fault_armed: 0,
+            send_fault_armed: (0, 0),
+            inbox_fifo: HashMap::new(),
             seq: 0,
             rng: Rng::new(mix(seed, 0x3e7)),
             net,
@@ -365,6 +391,8 @@ impl World {
         let _ = std::panic::catch_unwind(std::panic::AssertUnwindSafe(|| guarded(11, || drop(s))));
         alloc::set_tag(alloc::TAG_HARNESS);
         if self.send_faults.is_some() {
+            let (_, re) = uv::net::socket_fault_counts();
+            self.c.add("receive_calls_failed_by_the_socket", re as i128);
             uv::net::set_socket_faults(0, 0);
         }
         let _ = uv::net::drain_refused();
@@ -372,6 +400,18 @@ impl World {
         uv::time::set_virtual_ns(None);
         uv::rng::set_seed(None);
         uv::rng::clear_forced();
+    }
+
+    /// Stamps the datagrams the endpoint at `addr` has taken out of its socket during the call that
+    /// just returned (what is left in the queue is read from the socket; the queue is FIFO).
+    fn note_reads(&mut self, addr: SocketAddr) {
+        let left = uv::net::inbox_len(addr);
+        if let Some(q) = self.inbox_fifo.get_mut(&addr) {
+            while q.len() > left {
+                let idx = q.pop_front().unwrap();
+                self.delivered[idx].read_ns = Some(self.now_ns);
+            }
+        }
     }
 
     /// Every call into an endpoint starts here: sets the clock uflow sees and, when the session has a
@@ -382,9 +422,13 @@ impl World {
             let t = self.now_ns;
             let burst = plan.bursts.iter().any(|b| b.1 <= t && t < b.2 && b.0.map_or(true, |s| s == is_server));
             let want: u64 = if t >= plan.until_ns { 0 } else if burst { 1 } else if plan.only_server.map_or(true, |s| s == is_server) { plan.every } else { 0 };
-            if want != self.send_fault_armed {
-                self.send_fault_armed = want;
-                uv::net::set_socket_faults(want, 0);
+            let rburst = plan.recv_bursts.iter().any(|b| b.1 <= t && t < b.2 && b.0.map_or(true, |s| s == is_server));
+            let rwant: u64 = if t >= plan.until_ns { 0 } else if rburst { 1 } else if plan.only_server.map_or(true, |s| s == is_server) { plan.recv_every } else { 0 };
+            if (want, rwant) != self.send_fault_armed {
+                let (_, re) = uv::net::socket_fault_counts();
+                self.c.add("receive_calls_failed_by_the_socket", re as i128);
+                self.send_fault_armed = (want, rwant);
+                uv::net::set_socket_faults(want, rwant);
             }
         }
     }
@@ -393,9 +437,9 @@ impl World {
     /// ECONNREFUSED on a send: the frame is not transmitted and the endpoint is told so). A refused
     /// send is recorded in the wire trace as a dropped frame with `refused` set.
     pub fn set_send_fault_plan(&mut self, plan: SendFaultPlan) {
-        self.c.inc("sessions_with_send_errors");
+        self.c.inc(if plan.recv_every != 0 || !plan.recv_bursts.is_empty() { "sessions_with_receive_errors" } else { "sessions_with_send_errors" });
         self.send_faults = Some(plan);
-        self.send_fault_armed = 0;
+        self.send_fault_armed = (0, 0);
     }
 
     pub fn viol(&mut self, prop: &'static str, rule: &str, msg: String) {
@@ -442,6 +486,7 @@ impl World {
     pub fn connect_client(&mut self, cfg: uflow::EndpointConfig, addr: SocketAddr, step_dt_ns: (u64, u64), forced_nonce: Option<u32>) -> Option<usize> {
         self.enter(false);
         uv::net::push_bind_addr(addr);
+        self.inbox_fifo.remove(&addr);
         if let Some(n) = forced_nonce {
             uv::rng::force_u32(n);
         }
@@ -654,7 +699,9 @@ impl World {
                     }
                 }
                 if self.keep_trace {
-                    self.delivered.push(DeliveredRec { t_ns: self.now_ns, src: p.src, dst: p.dst, frame: decode(&p.data), len: p.data.len(), injected: p.injected });
+                    self.delivered.push(DeliveredRec { t_ns: self.now_ns, src: p.src, dst: p.dst, frame: decode(&p.data), len: p.data.len(), injected: p.injected, read_ns: None });
+                    let idx = self.delivered.len() - 1;
+                    self.inbox_fifo.entry(p.dst).or_default().push_back(idx);
                 }
             } else {
                 self.c.inc("datagrams_to_nowhere");
@@ -708,6 +755,8 @@ impl World {
             }
         };
         self.pump();
+        let sa = self.server.addr;
+        self.note_reads(sa);
         let s = &mut self.server;
         if s.steps > 0 {
             s.max_step_gap_ns = s.max_step_gap_ns.max(now - s.last_step_ns);
@@ -855,7 +904,11 @@ impl World {
             }
         }
         self.tracked_prev = tracked_now;
-        self.valid_ack_since_call.clear();
+        // (a socket whose receive calls fail hands an ACK over in a later call than the one it
+        // arrived before: there the clause only asks for a valid ACK to have arrived at all)
+        if !self.send_faults.as_ref().map_or(false, |p| p.recv_every != 0 || !p.recv_bursts.is_empty()) {
+            self.valid_ack_since_call.clear();
+        }
         // a connection the server has reported and not ended is one it still knows: stale timers
         // or leftovers of earlier handshakes from the same address must not take it away
         {
@@ -905,6 +958,8 @@ impl World {
             }
         };
         self.pump();
+        let ca = self.clients[i].addr;
+        self.note_reads(ca);
         let dt = {
             let (lo, hi) = self.clients[i].step_dt_ns;
             self.clients[i].cadence_rng.range(lo, hi)
